@@ -26,7 +26,9 @@ impl log::Log for CallbackLogger {
         }
 
         if self.enabled(record.metadata()) {
-            let log_str = format!("{} - {}", record.level(), record.args());
+            // A NUL byte cannot be part of a C string: string_to_c_char would fail and log that failure with
+            // the same message again, without end
+            let log_str = format!("{} - {}", record.level(), record.args()).replace('\0', " ");
             let cstr = string_to_c_char(log_str);
 
             (self.callback.unwrap())(cstr, self.data.unwrap(), record.level() as i16);
